@@ -26,6 +26,11 @@ var solvers = []solverSpec{
 }
 
 func (sc *Script) render(ob *Obligation, pre string, model bool) string {
+	return sc.renderOpt(ob, pre, model, false)
+}
+
+// renderOpt: with qfOnly the quantified facts are left out (fewer assumptions: an unsat answer is still a proof).
+func (sc *Script) renderOpt(ob *Obligation, pre string, model bool, qfOnly bool) string {
 	var b strings.Builder
 	if model {
 		b.WriteString("(set-option :produce-models true)\n")
@@ -38,6 +43,9 @@ func (sc *Script) render(ob *Obligation, pre string, model bool) string {
 	for i, f := range sc.facts[:ob.NFacts] {
 		// path slicing: facts emitted in blocks that cannot reach the obligation's block are irrelevant to it
 		if ob.Reach != nil && sc.factBlk[i] >= 0 && !ob.Reach[sc.factBlk[i]] {
+			continue
+		}
+		if qfOnly && (strings.Contains(f, "(forall ") || strings.Contains(f, "(exists ")) {
 			continue
 		}
 		b.WriteString("(assert ")
@@ -113,6 +121,19 @@ func discharge(sc *Script, ob *Obligation, timeoutS int, dir string, all bool) {
 	}
 	ob.Bytes = len(sc.render(ob, "", false))
 	t0 := time.Now()
+	// first pass: quantifier-free facts only (guard chaining, frames over named versions, opaque-atom relations)
+	if !all && ob.Kind != "canary" {
+		qt := 4
+		if timeoutS < qt {
+			qt = timeoutS
+		}
+		st, _, secs := runSolver(ctx, solvers[0], sc.renderOpt(ob, solvers[0].pre, false, true), qt, dir)
+		if st == "unsat" {
+			ob.Status, ob.Solver, ob.TimeS = "unsat", solvers[0].name+"(qf)", secs
+			ob.Output = fmt.Sprintf("%s(qf): unsat (%.2fs)", solvers[0].name, secs)
+			return
+		}
+	}
 	start(solvers[0])
 	started := 1
 	headStart := time.NewTimer(1500 * time.Millisecond)
@@ -168,6 +189,31 @@ func discharge(sc *Script, ob *Obligation, timeoutS int, dir string, all bool) {
 		ob.Status = "unknown"
 	}
 	ob.Output = strings.Join(notes, "; ")
+	// undecided as a whole: retry under each case condition of the contract (exhaustiveness is a separate obligation)
+	if ob.Status == "unknown" && len(sc.caseTerms) > 0 && ob.Case == "" && ob.Kind != "canary" && ob.Kind != "cases" {
+		allUnsat := true
+		var subNotes []string
+		for i, ct := range sc.caseTerms {
+			sub := *ob
+			sub.Status, sub.Solver, sub.Output, sub.Model = "", "", "", ""
+			sub.Case = fmt.Sprint(i + 1)
+			sub.Guard = sAnd(ob.Guard, ct)
+			discharge(sc, &sub, timeoutS, dir, false)
+			subNotes = append(subNotes, fmt.Sprintf("case %d: %s (%.2fs)", i+1, sub.Status, sub.TimeS))
+			if sub.Status != "unsat" {
+				allUnsat = false
+				if sub.Status == "sat" {
+					ob.Status, ob.Solver, ob.Model = "sat", sub.Solver, sub.Model
+				}
+				break
+			}
+		}
+		ob.TimeS = time.Since(t0).Seconds()
+		ob.Output += "; case split: " + strings.Join(subNotes, ", ")
+		if allUnsat {
+			ob.Status, ob.Solver = "unsat", "case-split"
+		}
+	}
 }
 
 func firstLines(s string, n int) string {
